@@ -44,11 +44,14 @@ ASSUMPTIONS = [
     "the fuse map has no binary layout: it is judged by the template and configuration laws only",
     "a PyYAML(1.1)/ruamel(1.2) difference in scalar typing is an observation; rejection by any of them is a violation",
     "the seal covers only words whose names say digest / CRC / CMAC (naming convention of the register data)",
+    "whole-register raw values sweep the bits some uniquely named bit-field describes (hidden ones included); bits that no "
+    "bit-field describes, or that several equally named fields describe, have no name in a configuration and stay at reset",
+    "a PFR register with a computed field that is given as ONE raw value is taken as it is (documented): not drawn raw",
 ]
 REQUIRED_COUNTERS = [
     "template_yaml", "template_schema", "template_loads", "export_size", "parse_accepts", "reexport_identity",
     "config_roundtrip", "config_roundtrip_diff", "value_survives", "computed_inverse", "computed_seal",
-    "computed_rotkh", "xmcd_crc", "xmcd_verify", "cli_template",
+    "computed_rotkh", "xmcd_crc", "xmcd_verify", "cli_template", "partial_configs", "computed_inverse_partial",
 ]
 # wall-clock guards only ever yield "inconclusive"; estimated for 16 idle cores: quick ~40 s (440 CPU-s), thorough ~9 min
 # (8 000 CPU-s) - but the machine is shared and a run has been seen to get 3 % of a core per worker
@@ -59,6 +62,10 @@ MAX_JOBS = 16
 N_RANDOM = {"quick": 3, "thorough": 10}
 N_ENUM = {"quick": 3, "thorough": 9}
 N_CLI = {"quick": 2, "thorough": 6}
+# whole registers set as ONE raw value (reserved and hidden bits included); not for the areas whose option words
+# decide the layout of the rest (memcfg, xmcd) nor for the TrustZone word lists (no bit-fields)
+N_RAWREG = {"quick": 1, "thorough": 4}
+RAWREG_KINDS = ("pfr", "bca", "fcf", "fcb", "fuses")
 # instances whose chain is slow (XMCD deep-copies its registers on every access, FCB / fuse schemas are large) are
 # split over several cases (each takes every n-th value mode) so that the shards balance
 PARTS = {("xmcd", "full"): 5, "xmcd": 2, "fcb": 3, "fuses": 3}
@@ -174,7 +181,8 @@ def _modes(tier, kind):
         # the slow chains (schema compiled on every load, XMCD deep-copies its registers on every access);
         # random draws pick a named value for 70 % of the enumerated fields anyway
         n_enum = 0 if tier == "quick" else 2
-    return m + [f"random{j}" for j in range(N_RANDOM[tier])] + [f"enum{j}" for j in range(n_enum)]
+    raw = [f"rawreg{j}" for j in range(N_RAWREG[tier])] if kind in RAWREG_KINDS else []
+    return m + [f"random{j}" for j in range(N_RANDOM[tier])] + [f"enum{j}" for j in range(n_enum)] + raw
 
 
 def extra_coverage(events, counters):
@@ -297,10 +305,41 @@ def _draw(regs, rng, mode: str, k: int, frozen: set):
     """Settings dictionary for every user-visible register / bit-field + the expectations."""
     settings: dict = {}
     expect: list[dict] = []
+    frozen_regs = {r for r, _ in frozen}
     for reg in regs.get_registers():
         if (reg.name, None) in frozen:
             continue
         bfs = reg.get_bitfields()
+        if mode == "rawreg" and reg._bitfields:  # pylint: disable=protected-access
+            # the whole register as ONE raw value: reserved / hidden bits get values too, and they are part of the area
+            if reg.name in frozen_regs or reg.has_group_registers() or reg.reverse or reg.width > 64:
+                continue
+            # bits that no bit-field of the specification describes have no name in a configuration: they keep their
+            # reset value (a configuration cannot carry them, so they are outside the swept range)
+            described = 0
+            all_names = [b.name for b in reg._bitfields]  # pylint: disable=protected-access
+            for bf in reg._bitfields:  # pylint: disable=protected-access
+                # (one of several equally named fields cannot be addressed by a configuration key either, see below)
+                if bf.width > 0 and all_names.count(bf.name) == 1:
+                    described |= ((1 << bf.width) - 1) << bf.offset
+            described &= (1 << reg.width) - 1
+            val = (rng.getrandbits(reg.width) & described) | (reg.get_reset_value() & ~described & ((1 << reg.width) - 1))
+            # values that the specification gives one and the same name are one setting (see _canon)
+            for bf in reg._bitfields:  # pylint: disable=protected-access
+                if bf.width > 0 and bf.offset + bf.width <= reg.width and bf.get_enums():
+                    m = ((1 << bf.width) - 1) << bf.offset
+                    val = (val & ~m) | (_canon(bf, (val & m) >> bf.offset) << bf.offset)
+            if reg.config_as_hexstring:
+                user = f"{val:0{reg.width // 4}X}"
+            else:
+                user = core.pick(rng, [f"0x{val:0{reg.width // 4}X}", val, {"value": f"0x{val:X}"}])
+            settings[reg.name] = user
+            expect.append({"reg": reg.name, "bf": None, "raw": val, "w": reg.width})
+            continue
+        if mode == "rawreg":
+            mode_ = "random"
+        else:
+            mode_ = mode
         if bfs:
             d: dict = {}
             used = 0
@@ -339,7 +378,7 @@ def _draw(regs, rng, mode: str, k: int, frozen: set):
             if d:
                 settings[reg.name] = d
         elif not reg._bitfields:  # pylint: disable=protected-access
-            val, w, user = _plain_value(reg, rng, mode)
+            val, w, user = _plain_value(reg, rng, mode_)
             settings[reg.name] = user
             expect.append({"reg": reg.name, "bf": None, "raw": val, "w": w})
     return settings, expect
@@ -811,6 +850,53 @@ def _pfr_extras(ctx, ad, inst, cfg: dict, default: bool):
         _viol(ctx, ad, inst, "rotkh-bytes-differs-from-keys", {"diff": _first_diff(out, out3)})
 
 
+def _pfr_partial(ctx, ad, inst, cfg: dict, expect: list[dict], rng):
+    """Partial configurations (a hand-written subset, the output of ``get_config(diff=True)``): a register that is left
+    out keeps the value of a fresh area, a register that is given keeps the given values, and every register given by
+    bit-fields without its computed field gets that field computed - wherever it stands among the computed registers."""
+    inst["_mode"] = "partial"
+    fresh = ad.fresh(inst)
+    comp = fresh.computed_fields or {}
+    settings = cfg[ad.settings_key]
+    names = list(settings)
+    comp_regs = {fresh.registers.get_reg(uid).name: (fresh.registers.get_reg(uid), fields) for uid, fields in comp.items()}
+    present = [n for n in comp_regs if isinstance(settings.get(n), dict)]
+    fresh_state = {e[0]: e for e in ad.dump(fresh)}
+    for trial in range(3):
+        keep = {n for n in names if rng.random() < 0.5}
+        if len(present) >= 2:
+            # the shape "an earlier computed register left out (or given raw), a later one given by bit-fields"
+            i = rng.randrange(len(present) - 1)
+            keep.discard(present[i])
+            keep.add(present[rng.randrange(i + 1, len(present))])
+        part = copy.deepcopy(cfg)
+        part[ad.settings_key] = {n: copy.deepcopy(settings[n]) for n in names if n in keep}
+        ok, x = _try(ctx, ad, inst, "load", ad.load, inst, part)
+        if not ok:
+            return
+        ok, data = _try(ctx, ad, inst, "export", ad.export, x)
+        if not ok:
+            return
+        ctx.count("partial_configs")
+        _api_value_law(ctx, ad, inst, ad.registers(x), [e for e in expect if e["reg"] in keep], "on-partial-load")
+        for e in ad.dump(x):
+            top = e[0].split("/")[0]
+            if top not in keep and e[0] in fresh_state and e != fresh_state[e[0]]:
+                _viol(ctx, ad, inst, "partial-config-changes-register-left-out", {"register": e[0], "got": e[2], "fresh": fresh_state[e[0]][2]})
+                break
+        for name, (reg, fields) in comp_regs.items():
+            if name not in keep or not isinstance(settings.get(name), dict):
+                continue
+            word = int.from_bytes(data[reg.offset: reg.offset + 4], "little")
+            for bf_uid, method in fields.items():
+                if reg.get_bitfield(bf_uid).name in settings[name]:
+                    continue
+                ctx.count("computed_inverse_partial")
+                if _inverse_ok(method, word) is False:
+                    _viol(ctx, ad, inst, "computed-inverse-wrong", {"register": name, "method": method, "word": hex(word),
+                                                                    "registers_given": len(keep), "partial": True})
+
+
 # ------------------------------------------------------------------------------------------
 # TrustZone draws (name -> word table, no Registers object)
 
@@ -923,13 +1009,21 @@ def _run_area(case, ctx, inst, ad, rng):
     for mode in modes:
         base = mode.rstrip("0123456789")
         j = int(mode[len(base):] or 0)
-        settings, expect = _draw(regs, rng, base, j, frozen)
+        fz = frozen
+        if base == "rawreg":
+            # a register with a computed field given as one raw value is taken as it is (documented with a warning):
+            # the computed-field law does not apply to it, so these registers are not drawn
+            comp = getattr(fresh, "computed_fields", None) or {}
+            fz = set(frozen) | {(fresh.registers.get_reg(uid).name, "*computed*") for uid in comp}
+        settings, expect = _draw(regs, rng, base, j, fz)
         cfg = copy.deepcopy(cfg0)
         cfg[ad.settings_key].update(settings)
         if _chain(ctx, ad, inst, cfg, expect, mode):
             ctx.ok(sigbase + [base], sample={"instance": ad.label(inst), "mode": mode, "fields_set": len(expect)})
         if mode == "random0" and inst["kind"] == "pfr":
             _pfr_extras(ctx, ad, inst, cfg, False)
+        if base == "random" and inst["kind"] == "pfr":
+            _pfr_partial(ctx, ad, inst, cfg, expect, rng)
 
 
 # ------------------------------------------------------------------------------------------
